@@ -1,6 +1,7 @@
 import LP.Props.C20
 import LP.Props.C20Heap
 import LP.Props.C20HeapOrder
+import LP.Props.C20HSet
 #print axioms LP.SpecSet.C20_spec_insert
 #print axioms LP.SpecSet.C20_spec_remove
 #print axioms LP.SpecSet.C20_spec_size
@@ -22,3 +23,10 @@ import LP.Props.C20HeapOrder
 #print axioms LP.Heap.C20_heap_remove_ok
 #print axioms LP.Heap.C20_heap_peek_max
 #print axioms LP.Heap.C20_heap_reachable_ok
+#print axioms LP.HSet.slots_fill
+#print axioms LP.HSet.slots_clear
+#print axioms LP.HSet.shiftBack_perm
+#print axioms LP.HSet.C20_hset_insert_perm
+#print axioms LP.HSet.C20_hset_insert_found
+#print axioms LP.HSet.C20_hset_remove_perm
+#print axioms LP.HSet.C20_hset_remove_missing
